@@ -98,12 +98,25 @@ def check_keys(ctx, num=1):
     ctx.ob(num, "K5", "the init request has exactly the keys of the Go struct InitRequest", keys == [k for _, k, _ in gs["InitRequest"]], ri, ip[0] if ip else ri.node,
            construct="init payload keys vs Go InitRequest", detail=f"python: {keys}; go: {[k for _, k, _ in gs['InitRequest']]}")
     # decoders
-    for fn_, st, var_hint in (("_parse_assignments", "Assignment", None), ("_parse_suspensions", "Suspension", None)):
-        f = P.fn(REST, fn_)
+    for ctor_, st, var_hint in (("Assignment", "Assignment", None), ("Suspend", "Suspension", None)):
+        ds_ = _decoders(P, ctor_)
+        ctx.count_min(f"functions of rest.py that build {ctor_} objects (the reply decoder)", len(ds_), 1)
+        f = ds_[0]
+        fn_ = f.qual
         ctx.touch(f)
+        # the keys read from one entry of the reply: string subscripts of the variable that ranges over the entries (loop / comprehension target)
+        site = [c for c in calls_named(f, ctor_) if isinstance(c.func, ast.Name)][0]
+        ev = None
+        q_ = parent(site)
+        while q_ is not None and q_ is not f.node and ev is None:
+            if isinstance(q_, (ast.ListComp, ast.GeneratorExp)) and len(q_.generators) == 1 and isinstance(q_.generators[0].target, ast.Name):
+                ev = q_.generators[0].target.id
+            elif isinstance(q_, ast.For) and isinstance(q_.target, ast.Name):
+                ev = q_.target.id
+            q_ = parent(q_)
         read = set()
         for n in own_nodes(f.node):
-            if isinstance(n, ast.Subscript) and isinstance(n.slice, ast.Constant) and isinstance(n.slice.value, str) and isinstance(n.value, ast.Name):
+            if isinstance(n, ast.Subscript) and isinstance(n.slice, ast.Constant) and isinstance(n.slice.value, str) and isinstance(n.value, ast.Name) and (ev is None or n.value.id == ev):
                 read.add(n.slice.value)
         gk = {k for _, k, _ in gs[st]}
         om = {k for _, k, o in gs[st] if o}
@@ -112,9 +125,21 @@ def check_keys(ctx, num=1):
                construct=f"omitempty in Go {st}", detail=f"omitempty keys: {sorted(om)}")
     rr = set()
     rname = response_name(rs)
-    for n in own_nodes(rs.node):
-        if isinstance(n, ast.Subscript) and norm.is_name(n.value, rname) and isinstance(n.slice, ast.Constant):
-            rr.add(n.slice.value)
+    rparams = set()
+    # a decoder that is handed the whole reply reads the keys through its parameter
+    for d_ in {id(x): x for x in _decoders(P, "Assignment") + _decoders(P, "Suspend")}.values():
+        for c_ in own_nodes(rs.node):
+            if isinstance(c_, ast.Call) and isinstance(c_.func, ast.Name) and c_.func.id == d_.name:
+                ps_ = d_.params()
+                for i_, a_ in enumerate(c_.args):
+                    if i_ < len(ps_) and (norm.is_name(a_, rname) or (isinstance(a_, ast.Call) and norm.call_name(a_) == "json")):
+                        rparams.add((d_.qual, ps_[i_]))
+    scopes_ = [(rs, {rname})] + [(d_, {p_ for q_, p_ in rparams if q_ == d_.qual}) for d_ in {id(x): x for x in _decoders(P, "Assignment") + _decoders(P, "Suspend")}.values()]
+    for fn__, names__ in scopes_:
+        for n in own_nodes(fn__.node):
+            if isinstance(n, ast.Subscript) and isinstance(n.slice, ast.Constant) and ((isinstance(n.value, ast.Name) and n.value.id in names__)
+                                                                                    or (fn__ is rs and isinstance(n.value, ast.Call) and norm.call_name(n.value) == "json")):
+                rr.add(n.slice.value)
     gk = {k for _, k, _ in gs["ScheduleResponse"]}
     om = {k for _, k, o in gs["ScheduleResponse"] if o}
     ctx.ob(num, "K5", "the reply is read under exactly the keys of the Go struct ScheduleResponse, none of them omitempty", rr == gk and not om, rs, rs.node, construct="response keys vs Go ScheduleResponse",
@@ -329,26 +354,70 @@ def check_protocol(ctx):
             rdefs = [n for n in own_nodes(f.node) if isinstance(n, ast.Assign) and norm.is_name(n.targets[0], rname)]
             rj = len(rdefs) == 1 and isinstance(rdefs[0].value, ast.Call) and norm.call_name(rdefs[0].value) == "json" and isinstance(parent(post), ast.Assign) \
                 and norm.U(rdefs[0].value.func.value) == norm.U(parent(post).targets[0])
-            ok = rj and a == f"_parse_suspensions({rname}['suspensions'])" and b == f"_parse_assignments({s_p}, {rname}['assignments'])"
+            ea, eb = (norm.subst(e, env) for e in r.value.elts)
+            R_texts = {rname} | ({norm.U(rdefs[0].value)} if rdefs else set()) | {norm.U(c_) for c_ in own_nodes(f.node) if isinstance(c_, ast.Call) and norm.call_name(c_) == "json"}
+            ok = rj_or_direct(f, post, rdefs) and _decoded_from(P, f, g, r.value.elts[0], "Suspend", "suspensions", R_texts, env) \
+                and _decoded_from(P, f, g, r.value.elts[1], "Assignment", "assignments", R_texts, env)
+            a, b = norm.U(ea), norm.U(eb)
             d = f"({a}, {b})"
         else:
             d = norm.U(r.value)
         ctx.ob(5, "K6", "the round returns exactly the decoded suspensions and assignments of the reply", ok, f, r, detail=d)
 
 
+def _rebound_params(f) -> set:
+    """parameters of f that are bound again somewhere in f (assignment, loop target, with/except target, comprehension target in f's own scope is separate)"""
+    ps = set(f.params())
+    out = set()
+    for n in own_nodes(f.node):
+        tg = []
+        if isinstance(n, ast.Assign):
+            tg = n.targets
+        elif isinstance(n, (ast.AugAssign, ast.AnnAssign)):
+            tg = [n.target]
+        elif isinstance(n, (ast.For, ast.AsyncFor)):
+            tg = [n.target]
+        elif isinstance(n, (ast.With, ast.AsyncWith)):
+            tg = [i.optional_vars for i in n.items if i.optional_vars is not None]
+        elif isinstance(n, ast.NamedExpr):
+            tg = [n.target]
+        elif isinstance(n, ast.ExceptHandler) and n.name:
+            if n.name in ps:
+                out.add(n.name)
+        for t in tg:
+            for x in ast.walk(t):
+                if isinstance(x, ast.Name) and isinstance(x.ctx, ast.Store) and x.id in ps:
+                    out.add(x.id)
+    return out
+
+
+def _decoders(P, what: str):
+    """functions of rest.py that construct `what` (Assignment / Suspend): the decoders of the reply, wherever they live"""
+    m = P.mod(REST)
+    return [f for f in m.funcs.values() if any(isinstance(c.func, ast.Name) for c in calls_named(f, what))]
+
+
+def _reply_source(f, e: ast.expr, key: str) -> bool:
+    """e is the reply's list `key`: a parameter of the decoder (the caller passes response[key]) or a subscript [key] of the reply"""
+    if isinstance(e, ast.Name) and e.id in f.params():
+        return True
+    return isinstance(e, ast.Subscript) and isinstance(e.slice, ast.Constant) and e.slice.value == key
+
+
 def check_decoding(ctx, num=5):
     P = ctx.P
-    f = P.fn(REST, "_parse_assignments")
+    fa = _decoders(P, "Assignment")
+    ctx.count_min("functions of rest.py that build Assignment objects (the reply decoder)", len(fa), 1)
+    f = fa[0]
     ctx.touch(f)
     g = cfg_of(f, subst_env=False)
-    cs = calls_named(f, "Assignment")
-    ok = len(cs) == 1
-    ctx.ob(num, "K6", "one Assignment is built per entry of the reply", ok, f, cs[0] if cs else f.node, construct="Assignment( in _parse_assignments", detail=f"{len(cs)}")
+    cs = [c for c in calls_named(f, "Assignment") if isinstance(c.func, ast.Name)]
+    ok = len(cs) == 1 and len(fa) == 1
+    ctx.ob(num, "K6", "one Assignment is built per entry of the reply", ok, f, cs[0] if cs else f.node, construct="Assignment( in the reply decoder", detail=f"{len(cs)} site(s) in {[x.qual for x in fa]}")
     if ok:
         c = cs[0]
         lp = enclosing_for(c, f.node)
         av = lp.target.id if lp is not None and isinstance(lp.target, ast.Name) else "a"
-        s_p = f.params()[0]
         le = loop_env(lp) if lp is not None else {}
         want = {"cpu": f"{av}['cpu']", "ram": f"{av}['ram_gb']", "pool_id": f"{av}['pool_id']", "priority": f"Priority[{av}['priority']]", "is_resume": f"{av}['is_resume']",
                 "force_run": f"{av}['force_run']"}
@@ -357,27 +426,59 @@ def check_decoding(ctx, num=5):
             ctx.ob(num, "K6", f"Assignment.{k} is the reply's value, unchanged", v is not None and norm.U(v) == w, f, c, construct=f"Assignment({k}=...)", detail=f"{norm.U(v) if v is not None else None}; required {w}")
         ops = norm.kwarg(c, "ops", 0)
         opsr = norm.subst(ops, le) if ops is not None else None
-        okops = isinstance(opsr, ast.ListComp) and len(opsr.generators) == 1 and not opsr.generators[0].ifs and norm.U(opsr.generators[0].iter) == f"{av}['operator_ids']" \
-            and norm.U(opsr.elt) == f"{s_p}.operator_lookup[{opsr.generators[0].target.id}]"
-        ctx.ob(num, "K6", "the operators of an assignment are looked up by id, in the order given (an unknown id raises)", okops, f, c, construct="ops from operator_ids", detail=f"{norm.U(opsr) if opsr is not None else None}")
+        okops = False
+        reg = None
+        if isinstance(opsr, ast.ListComp) and len(opsr.generators) == 1 and not opsr.generators[0].ifs and norm.U(opsr.generators[0].iter) == f"{av}['operator_ids']" \
+                and isinstance(opsr.elt, ast.Subscript) and isinstance(opsr.elt.value, ast.Attribute) and opsr.elt.value.attr == "operator_lookup" \
+                and isinstance(opsr.elt.value.value, ast.Name) and norm.is_name(opsr.elt.slice, opsr.generators[0].target.id):
+            reg = opsr.elt.value.value.id
+            # the registry is read through the scheduler object the decoder was given: a parameter that nothing in the decoder binds again
+            okops = reg in f.params() and reg not in _rebound_params(f)
+        ctx.ob(num, "K6", "the operators of an assignment are looked up by id in the scheduler's registry, in the order given (an unknown id raises)", okops, f, c, construct="ops from operator_ids",
+               detail=f"{norm.U(opsr) if opsr is not None else None}; registry read through `{reg}` (a parameter, never re-bound in the decoder: {okops})")
         hid = g.node_of(lp).id if lp is not None else None
-        rets = [r for r in own_nodes(f.node) if isinstance(r, ast.Return)]
-        out = rets[0].value.id if len(rets) == 1 and isinstance(rets[0].value, ast.Name) else None
-        apps = [a for a in calls_named(f, "append") if out and norm.is_name(a.func.value, out)]
-        okall = lp is not None and norm.is_name(lp.iter, f.params()[1]) and len(apps) == 1 and g.path_avoiding(hid, {hid, g.exit.id}, {g.node_of(apps[0]).id}, edge_ok=lambda a, b, lab: not (a == hid and lab == "done")) is None
+        # every Assignment built joins the list that is returned
+        rets = [r for r in own_nodes(f.node) if isinstance(r, ast.Return) and r.value is not None]
+        outs = set()
+        for r in rets:
+            for x in ([r.value] if isinstance(r.value, ast.Name) else (r.value.elts if isinstance(r.value, ast.Tuple) else [])):
+                if isinstance(x, ast.Name):
+                    outs.add(x.id)
+        p_ = parent(c)
+        app = None
+        if isinstance(p_, ast.Call) and isinstance(p_.func, ast.Attribute) and p_.func.attr == "append" and isinstance(p_.func.value, ast.Name):
+            app = p_
+        elif isinstance(p_, ast.Assign) and len(p_.targets) == 1 and isinstance(p_.targets[0], ast.Name):
+            cand = [a for a in calls_named(f, "append") if isinstance(a.func, ast.Attribute) and isinstance(a.func.value, ast.Name) and a.args and norm.is_name(a.args[0], p_.targets[0].id)]
+            app = cand[0] if len(cand) == 1 else None
+        okall = lp is not None and _reply_source(f, lp.iter, "assignments") and app is not None and app.func.value.id in outs \
+            and g.path_avoiding(hid, {hid, g.exit.id}, {g.node_of(app).id}, edge_ok=lambda a, b, lab: not (a == hid and lab == "done")) is None
         ctx.ob(num, "K6", "every entry of the reply is decoded and returned, in order", okall, f, lp or f.node, construct="all assignments decoded", detail=f"loop: {stmt_text(lp) if lp else None}")
-    f2 = P.fn(REST, "_parse_suspensions")
+    fs2 = _decoders(P, "Suspend")
+    ctx.count_min("functions of rest.py that build Suspend objects (the reply decoder)", len(fs2), 1)
+    f2 = fs2[0]
     ctx.touch(f2)
-    rets = [r for r in own_nodes(f2.node) if isinstance(r, ast.Return)]
+    sc = [c for c in calls_named(f2, "Suspend") if isinstance(c.func, ast.Name)]
     ok = False
-    d = f"{[stmt_text(r) for r in rets]}"
-    if len(rets) == 1 and isinstance(rets[0].value, ast.ListComp) and len(rets[0].value.generators) == 1 and not rets[0].value.generators[0].ifs:
-        lc = rets[0].value
-        v = lc.generators[0].target.id
-        e = lc.elt
-        ok = isinstance(e, ast.Call) and norm.call_name(e) == "Suspend" and norm.U(norm.kwarg(e, "container_id", 0)) == f"{v}['container_id']" and norm.U(norm.kwarg(e, "pool_id", 1)) == f"{v}['pool_id']" \
-            and norm.is_name(lc.generators[0].iter, f2.params()[0])
-    ctx.ob(num, "K6", "every suspension of the reply is decoded into Suspend(container_id, pool_id), unchanged and in order", ok, f2, rets[0] if rets else f2.node, detail=d)
+    d = f"{len(sc)} Suspend( site(s) in {[x.qual for x in fs2]}"
+    if len(sc) == 1 and len(fs2) == 1:
+        e = sc[0]
+        comp = parent(e)
+        v = src = None
+        every = False
+        if isinstance(comp, ast.ListComp) and len(comp.generators) == 1 and not comp.generators[0].ifs and isinstance(comp.generators[0].target, ast.Name) and comp.elt is e:
+            v, src, every = comp.generators[0].target.id, comp.generators[0].iter, True
+        else:
+            lp2 = enclosing_for(e, f2.node)
+            if lp2 is not None and isinstance(lp2.target, ast.Name):
+                g2 = cfg_of(f2, subst_env=False)
+                h2 = g2.node_of(lp2).id
+                v, src = lp2.target.id, lp2.iter
+                every = g2.path_avoiding(h2, {h2, g2.exit.id}, {g2.node_of(e).id}, edge_ok=lambda a, b, lab: not (a == h2 and lab == "done")) is None
+        ok = v is not None and every and norm.U(norm.kwarg(e, "container_id", 0)) == f"{v}['container_id']" and norm.U(norm.kwarg(e, "pool_id", 1)) == f"{v}['pool_id']" \
+            and _reply_source(f2, src, "suspensions")
+        d = f"entry variable `{v}` over {norm.U(src) if src is not None else None}; every entry decoded: {every}"
+    ctx.ob(num, "K6", "every suspension of the reply is decoded into Suspend(container_id, pool_id), unchanged and in order", ok, f2, sc[0] if sc else f2.node, detail=d)
     # operator registry: filled for every operator of every new pipeline before the call
     rs = P.fn(REST, "rest_scheduler")
     g = cfg_of(rs, subst_env=False)
@@ -439,6 +540,95 @@ def check_true_state(ctx, num=6):
             ctx.ob(num, "K6", f"{q}[{k.value!r}] is the object's live {k.value}", ok, f, v, construct=f"{q}[{k.value}]", detail=f"{got}")
 
 
+def rj_or_direct(f, post, rdefs) -> bool:
+    """the reply is <result of this round's POST>.json(), bound to a name once or used directly"""
+    pv = parent(post).targets[0] if isinstance(parent(post), ast.Assign) and len(parent(post).targets) == 1 else None
+    if pv is None:
+        return False
+    js = [c for c in own_nodes(f.node) if isinstance(c, ast.Call) and norm.call_name(c) == "json" and isinstance(c.func, ast.Attribute)]
+    return len(js) >= 1 and all(norm.U(j.func.value) == norm.U(pv) for j in js) and len(rdefs) <= 1
+
+
+def _decoded_from(P, f, g, e: ast.expr, ctor: str, key: str, R_texts: set, env, depth: int = 0) -> bool:
+    """e is the list of `ctor` objects decoded from reply[key], one per entry, in order: a call of the decoder on reply[key] (or on the whole
+    reply, for a decoder that returns both lists in this position), a comprehension over reply[key], a list filled by a loop over reply[key],
+    or a name bound to one of these (also by tuple unpacking)."""
+    if depth > 4:
+        return False
+    names = {x.name for x in _decoders(P, ctor)}
+
+    def is_src(x) -> bool:
+        t = norm.U(norm.subst(x, env))
+        return any(t == f"{R}['{key}']" for R in R_texts)
+    if isinstance(e, ast.Call) and isinstance(e.func, ast.Name) and e.func.id in names:
+        return any(is_src(a) for a in e.args)
+    if isinstance(e, ast.ListComp) and len(e.generators) == 1 and not e.generators[0].ifs and isinstance(e.elt, ast.Call) and norm.call_name(e.elt) == ctor:
+        return is_src(e.generators[0].iter)
+    if isinstance(e, ast.Name):
+        defs = [n for n in own_nodes(f.node) if isinstance(n, ast.Assign) and len(n.targets) == 1 and
+                (norm.is_name(n.targets[0], e.id) or (isinstance(n.targets[0], ast.Tuple) and any(norm.is_name(t, e.id) for t in n.targets[0].elts)))]
+        if len(defs) != 1:
+            return False
+        d = defs[0]
+        if isinstance(d.targets[0], ast.Tuple):
+            i = [k for k, t in enumerate(d.targets[0].elts) if norm.is_name(t, e.id)][0]
+            v = d.value
+            if isinstance(v, ast.Tuple) and len(v.elts) == len(d.targets[0].elts):
+                return _decoded_from(P, f, g, v.elts[i], ctor, key, R_texts, env, depth + 1)
+            if isinstance(v, ast.Call) and isinstance(v.func, ast.Name) and v.func.id in names:
+                # a decoder of the whole reply that returns (suspensions, assignments): position i of its return tuple is this list
+                dec = [x for x in _decoders(P, ctor) if x.name == v.func.id][0]
+                ps = dec.params()
+                whole = [ps[k] for k, a in enumerate(v.args) if k < len(ps) and norm.U(norm.subst(a, env)) in R_texts]
+                rets = [x for x in own_nodes(dec.node) if isinstance(x, ast.Return) and isinstance(x.value, ast.Tuple) and len(x.value.elts) == len(d.targets[0].elts)]
+                if len(whole) == 1 and len(rets) == 1:
+                    gd = cfg_of(dec, subst_env=False)
+                    return _decoded_from(P, dec, gd, rets[0].value.elts[i], ctor, key, {whole[0]}, single_defs(dec), depth + 1)
+            return False
+        v = d.value
+        if isinstance(v, ast.List) and not v.elts:
+            apps = [c for c in calls_named(f, "append") if isinstance(c.func, ast.Attribute) and norm.is_name(c.func.value, e.id)]
+            others = [c for c in own_nodes(f.node) if isinstance(c, ast.Call) and isinstance(c.func, ast.Attribute) and norm.is_name(c.func.value, e.id) and c.func.attr != "append"]
+            if len(apps) != 1 or others:
+                return False
+            a = apps[0]
+            lp = enclosing_for(a, f.node)
+            arg = a.args[0] if a.args else None
+            if isinstance(arg, ast.Name):
+                ad = [n for n in own_nodes(f.node) if isinstance(n, ast.Assign) and any(norm.is_name(t, arg.id) for t in n.targets)]
+                arg = ad[0].value if len(ad) == 1 else arg
+            if lp is None or not (isinstance(arg, ast.Call) and norm.call_name(arg) == ctor):
+                return False
+            hid = g.node_of(lp).id
+            every = g.path_avoiding(hid, {hid, g.exit.id}, {g.node_of(a).id}, edge_ok=lambda x, y, lab: not (x == hid and lab == "done")) is None
+            return every and is_src(lp.iter) and enclosing_for(lp, f.node) is None
+        return _decoded_from(P, f, g, v, ctor, key, R_texts, env, depth + 1)
+    return False
+
+
+def check_getters(ctx, num=6):
+    """Getters the payload goes through report the object's own state: the pipeline a container is reported under is derived from the
+    operators it actually holds (the assignment's pipeline_id is only a label set by whoever built the assignment — the bridge copies it
+    from the first operator), and the memory figures are the live fields."""
+    P = ctx.P
+    f = P.fn(CT, "Container.get_pipeline_id")
+    ctx.touch(f)
+    reads_asg = [n for n in own_nodes(f.node) if isinstance(n, ast.Attribute) and n.attr == "assignment"]
+    over_ops = [n for n in own_nodes(f.node) if (isinstance(n, ast.For) and norm.U(n.iter) == "self.operators") or (isinstance(n, ast.comprehension) and norm.U(n.iter) == "self.operators")]
+    from_ops = any(isinstance(x, ast.Attribute) and x.attr == "pipeline_id" and isinstance(x.value, ast.Attribute) and x.value.attr == "pipeline" for n in own_nodes(f.node) for x in [n])
+    ctx.ob(num, "K6", "the pipeline a container is reported under is derived from the operators it holds, not from the label on its assignment", not reads_asg and bool(over_ops) and from_ops,
+           f, reads_asg[0] if reads_asg else f.node, construct="Container.get_pipeline_id source",
+           detail=f"iterates self.operators: {bool(over_ops)}; reads op.pipeline.pipeline_id: {from_ops}; reads self.assignment: {bool(reads_asg)}")
+    for q, want in (("Container.get_current_memory_usage", "self._current_memory"), ("ResourcePool.get_consumed_ram_gb", "self.consumed_ram_gb")):
+        rel = CT if q.startswith("Container") else RP
+        if not P.has_fn(rel, q):
+            continue
+        h = P.fn(rel, q)
+        ctx.touch(h)
+        rs = [r for r in own_nodes(h.node) if isinstance(r, ast.Return)]
+        ctx.ob(num, "K6", f"{q}() reports the live field", len(rs) == 1 and rs[0].value is not None and norm.U(rs[0].value) == want, h, rs[0] if rs else h.node, detail=f"{[stmt_text(r) for r in rs]}")
+
+
 def _canon_cmp(t: str) -> str:
     """orientation-independent text: every comparison replaced by its normal form (a > b == b < a, == operands sorted); bound variables renamed."""
     try:
@@ -485,3 +675,4 @@ def run(ctx):
     check_protocol(ctx)
     check_decoding(ctx, 5)
     check_true_state(ctx, 6)
+    check_getters(ctx, 6)
